@@ -78,3 +78,16 @@ Theorem C07_parallel_lines_parameters_twin : forall x0 y0 x1 y1 x2 y2 x3 y3,
   vidx F 0 = vidx P 0 /\ (vidx P 0 = VB false -> val_close 0 (vidx P 1) (vidx F 1) = true).
 Proof. exact parallel_lines_parameters_twin. Qed.
 Print Assumptions C07_parallel_lines_parameters_twin.
+Theorem C07_solve2x2_twin : forall lhs rhs, f90_solve2x2 lhs rhs = py_solve2x2 lhs rhs.
+Proof. exact solve2x2_twin. Qed.
+Print Assumptions C07_solve2x2_twin.
+Theorem C07_line_line_collide_twin : forall ax ay bx by_ cx cy dx dy,
+  f90_line_line_collide (L2 ax ay bx by_) (L2 cx cy dx dy) = py_line_line_collide (L2 ax ay bx by_) (L2 cx cy dx dy).
+Proof. exact line_line_collide_twin. Qed.
+Print Assumptions C07_line_line_collide_twin.
+(* the compiled bbox_line_intersect has no Python entry point: this theorem is its only tie besides end-to-end sweeps *)
+Theorem C07_bbox_line_intersect_twin : forall x0 xs y0 ys sx sy ex ey,
+  f90_bbox_line_intersect (vq_mat [x0 :: xs; y0 :: ys]) (V2 sx sy) (V2 ex ey)
+  = py_bbox_line_intersect (vq_mat [x0 :: xs; y0 :: ys]) (V2 sx sy) (V2 ex ey).
+Proof. exact bbox_line_intersect_twin. Qed.
+Print Assumptions C07_bbox_line_intersect_twin.
